@@ -10,8 +10,8 @@
  * handles); the python check compares that part between interleaved and sequential runs.
  *
  * Lines:  new | fin | prog.. fun.. a.. begin.. end.. endprog (echoed as "-": program for the Lean side)
- *         parse <awk-file>.. (one or more source pieces) | parsebad <missing-file> | clear | open c | close c | call c fname args.. | loop c | exec c
- *         setgbl c n arg | getgbl c n | halt c | mkstr c h text | mkmap c h | drop c h | show c h
+ *         incdirs <dir>|- | parse <awk-file>.. (one or more source pieces) | parsebad <file>.. | clear | open c | close c | call c fname args.. | loop c | exec c
+ *         calls c fname text.. (string-array call) | setgbl c n arg | getgbl c n | halt c | mkstr c h text | mkmap c h | drop c h | show c h
  *         args:  n (nil)   s:text (temporary string, dropped after the call)   h:K (handle K)
  */
 #include <hawk-std.h>
@@ -21,6 +21,7 @@
 #include <string.h>
 #include <unistd.h>
 #include <signal.h>
+#include <sanitizer/common_interface_defs.h>
 
 #define MAXC 4
 #define MAXH 8
@@ -75,9 +76,23 @@ static struct cx
 	hawk_val_t* h[MAXH];
 	char in[512], out[512], dir[512];
 	hawk_bch_t* icf[2]; hawk_bch_t* ocf[2];
+	hawk_uch_t* wi; hawk_uch_t* wo;
 	long conoff;
 } cx[MAXC];
 
+static unsigned long line_hash;
+static unsigned long hash_line (const char* l)
+{
+	unsigned long h = 5381; for (; *l && *l != '\n'; l++) h = h * 33 + (unsigned char)*l; return h;
+}
+
+/* runtime callback set: hawk_rtx_close() must call `close` exactly once unless the set was killed */
+static int ecb_closed[MAXC], ecb_gblset[MAXC];
+static void ecb_close (hawk_rtx_t* rtx, void* ctx) { ecb_closed[(long)ctx]++; }
+static void ecb_gbl (hawk_rtx_t* rtx, hawk_oow_t idx, hawk_val_t* val, void* ctx) { ecb_gblset[(long)ctx]++; }
+static hawk_rtx_ecb_t ecbs[MAXC], ecbs2[MAXC];
+
+static void on_death (void) { fflush(stdout); }
 static void on_alarm (int sig) { printf("HANG\n"); fflush(stdout); _exit(3); }
 
 static const char* errname (int e)
@@ -229,6 +244,7 @@ static void teardown (void)
 		cur_owner = c;
 		for (i = 0; i < MAXH; i++) if (cx[c].h[i]) { hawk_rtx_refdownval(cx[c].rtx, cx[c].h[i]); cx[c].h[i] = NULL; }
 		hawk_rtx_close(cx[c].rtx); cx[c].rtx = NULL;
+		if (cx[c].wi) { cur_owner = -1; hawk_freemem(hawk, cx[c].wi); hawk_freemem(hawk, cx[c].wo); cx[c].wi = cx[c].wo = NULL; }
 	}
 	cur_owner = -1;
 	if (hawk) { hawk_close(hawk); hawk = NULL; }
@@ -249,15 +265,20 @@ static hawk_val_t* mkarg (int c, const char* tok, int* temp)
 int main (int argc, char** argv)
 {
 	static char line[1 << 16];
-	char* tok[64]; int nt;
+	char* tok[64]; int nt; unsigned long nlines = 0;
 	signal(SIGALRM, on_alarm);
+	__sanitizer_set_death_callback(on_death); /* what the earlier ops printed must survive a sanitizer abort */
 	scratch = argc > 1? argv[1]: "/tmp";
 	while (fgets(line, sizeof(line), stdin))
 	{
 		char* s; int c = -1;
 		nt = 0;
+		line_hash = hash_line(line);
 		for (s = strtok(line, " \n"); s && nt < 64; s = strtok(NULL, " \n")) tok[nt++] = s;
 		if (nt == 0) { printf("-\n"); continue; }
+		/* what the earlier ops printed must survive an abort in this one (the sanitizer death callback does
+		 * not cover every way out): flush before the interpreter-level ops and every few lines */
+		if (tok[0][0] == 'p' || tok[0][0] == 'o' || (tok[0][0] == 'c' && tok[0][1] == 'l') || tok[0][0] == 'f' || (++nlines & 7) == 0) fflush(stdout);
 		alarm(20);
 		if (!strcmp(tok[0], "new"))
 		{
@@ -281,6 +302,18 @@ int main (int argc, char** argv)
 		if (!strcmp(tok[0], "prog") || !strcmp(tok[0], "fun") || !strcmp(tok[0], "a") || !strcmp(tok[0], "begin") ||
 		    !strcmp(tok[0], "end") || !strcmp(tok[0], "endprog")) { printf("-\n"); continue; }
 		if (!hawk) { printf("no-interp\n"); continue; }
+		if (!strcmp(tok[0], "incdirs") && nt >= 2)
+		{
+			/* HAWK_OPT_INCLUDEDIRS: where @include looks for relative names. "-" clears it */
+			hawk_ooch_t* w = NULL; const hawk_ooch_t* back = NULL; int r1, r2;
+			cur_owner = -1;
+			if (strcmp(tok[1], "-")) w = hawk_dupbtoucstr(hawk, tok[1], NULL, 0);
+			r1 = hawk_setopt(hawk, HAWK_OPT_INCLUDEDIRS, w);
+			r2 = hawk_getopt(hawk, HAWK_OPT_INCLUDEDIRS, &back);
+			printf("incdirs %s\n", (r1 >= 0 && r2 >= 0 && ((w == NULL) == (back == NULL)))? "ok": "FAILED");
+			if (w) hawk_freemem(hawk, w);
+			continue;
+		}
 		if ((!strcmp(tok[0], "parse") || !strcmp(tok[0], "parsebad")) && nt >= 2)
 		{
 			/* the source may come in several pieces (like several -f files): one in[] entry per path */
@@ -289,10 +322,46 @@ int main (int argc, char** argv)
 			if (open_ctx) { printf("parse refused\n"); continue; }
 			if (np > 16) np = 16;
 			memset(in, 0, sizeof(in));
-			for (k = 0; k < np; k++) { in[k].type = HAWK_PARSESTD_FILEB; in[k].u.fileb.path = tok[1 + k]; }
-			in[np].type = HAWK_PARSESTD_NULL;
-			cur_owner = -1;
-			n = hawk_parsestd(hawk, in, NULL);
+			{
+				/* every piece is handed over in one of the source forms of hawk_parsestd(): a byte-string path,
+				 * a wide-string path, or the text itself as a byte string / a wide string */
+				static char* txt[16]; static hawk_uch_t* wtxt[16]; static hawk_uch_t* wpath[16];
+				for (k = 0; k < np; k++)
+				{
+					/* the form depends on the piece's content only (its size), not on where the scratch files live */
+					int form; FILE* f; long fsz = 0;
+					if ((f = fopen(tok[1 + k], "rb")) != NULL) { fseek(f, 0, SEEK_END); fsz = ftell(f); fclose(f); }
+					form = (int)((fsz + k) & 3);
+					txt[k] = NULL; wtxt[k] = NULL; wpath[k] = NULL;
+					if (form >= 2 && (f = fopen(tok[1 + k], "rb")) != NULL)
+					{
+						long sz; fseek(f, 0, SEEK_END); sz = ftell(f); fseek(f, 0, SEEK_SET);
+						txt[k] = (char*)malloc(sz + 1); sz = (long)fread(txt[k], 1, sz, f); txt[k][sz] = 0; fclose(f);
+						if (form == 2) { in[k].type = HAWK_PARSESTD_BCS; in[k].u.bcs.ptr = txt[k]; in[k].u.bcs.len = sz; }
+						else
+						{
+							hawk_oow_t wl = 0;
+							wtxt[k] = hawk_dupbtoucstr(hawk, txt[k], &wl, 0);
+							in[k].type = HAWK_PARSESTD_UCS; in[k].u.ucs.ptr = wtxt[k]; in[k].u.ucs.len = wl;
+						}
+					}
+					else if (form == 1)
+					{
+						wpath[k] = hawk_dupbtoucstr(hawk, tok[1 + k], NULL, 0);
+						in[k].type = HAWK_PARSESTD_FILEU; in[k].u.fileu.path = wpath[k];
+					}
+					else { in[k].type = HAWK_PARSESTD_FILEB; in[k].u.fileb.path = tok[1 + k]; }
+				}
+				in[np].type = HAWK_PARSESTD_NULL;
+				cur_owner = -1;
+				n = hawk_parsestd(hawk, in, NULL);
+				for (k = 0; k < np; k++)
+				{
+					if (txt[k]) free(txt[k]);
+					if (wtxt[k]) hawk_freemem(hawk, wtxt[k]);
+					if (wpath[k]) hawk_freemem(hawk, wpath[k]);
+				}
+			}
 			parsed = (n >= 0);
 			if (n >= 0) printf("parse ok"); else printf("parse err");
 			funs_and_gbls();
@@ -325,13 +394,42 @@ int main (int argc, char** argv)
 			f = fopen(x->out, "w"); fclose(f);
 			x->conoff = 0;
 			x->icf[0] = x->in; x->icf[1] = NULL; x->ocf[0] = x->out; x->ocf[1] = NULL;
-			x->rtx = hawk_rtx_openstdwithbcstr(hawk, 0, "ctx", x->icf, x->ocf, NULL);
+			if (c & 1)
+			{
+				/* the wide-string flavour of the standard context */
+				static hawk_uch_t* wi[MAXC][2]; static hawk_uch_t* wo[MAXC][2]; hawk_uch_t* wid;
+				cur_owner = -1; /* these strings belong to the application */
+				wi[c][0] = hawk_dupbtoucstr(hawk, x->in, NULL, 0); wi[c][1] = NULL;
+				wo[c][0] = hawk_dupbtoucstr(hawk, x->out, NULL, 0); wo[c][1] = NULL;
+				wid = hawk_dupbtoucstr(hawk, "ctx", NULL, 0);
+				cur_owner = c;
+				x->rtx = hawk_rtx_openstdwithucstr(hawk, 0, wid, wi[c], wo[c], NULL);
+				cur_owner = -1; hawk_freemem(hawk, wid); cur_owner = c;
+				x->wi = wi[c][0]; x->wo = wo[c][0];
+			}
+			else { x->rtx = hawk_rtx_openstdwithbcstr(hawk, 0, "ctx", x->icf, x->ocf, NULL); x->wi = x->wo = NULL; }
 			if (!x->rtx) { printf("open err=%s # lb=%ld\n", errname((int)hawk_geterrnum(hawk)), live_by_owner[c + 1]); cur_owner = -1; continue; }
 			id = hawk_findgblwithbcstr(hawk, "DIR", 0);
 			if (id >= 0)
 			{
 				hawk_val_t* v = hawk_rtx_makestrvalwithbcstr(x->rtx, x->dir);
 				hawk_rtx_refupval(x->rtx, v); hawk_rtx_setgbl(x->rtx, id, v); hawk_rtx_refdownval(x->rtx, v);
+			}
+			{
+				/* names the embedding application hands to the context: the values are made and owned inside */
+				hawk_uch_t* w = hawk_rtx_dupbtoucstr(x->rtx, "script.awk", NULL, 0);
+				int r = 0;
+				if (c & 1) r |= hawk_rtx_setscriptnamewithuchars(x->rtx, w, 10); else r |= hawk_rtx_setscriptnamewithbchars(x->rtx, "script.awk", 10);
+				r |= hawk_rtx_setfilenamewithbchars(x->rtx, x->in, strlen(x->in));
+				r |= hawk_rtx_setofilenamewithbchars(x->rtx, x->out, strlen(x->out));
+				hawk_rtx_freemem(x->rtx, w);
+				if (r) { printf("open NAMES-FAILED\n"); cur_owner = -1; continue; }
+				memset(&ecbs[c], 0, sizeof(ecbs[c])); memset(&ecbs2[c], 0, sizeof(ecbs2[c]));
+				ecbs[c].close = ecb_close; ecbs[c].gblset = ecb_gbl; ecbs[c].ctx = (void*)(long)c;
+				ecbs2[c].close = ecb_close; ecbs2[c].ctx = (void*)(long)c;
+				ecb_closed[c] = 0; ecb_gblset[c] = 0;
+				hawk_rtx_pushecb(x->rtx, &ecbs[c]); hawk_rtx_pushecb(x->rtx, &ecbs2[c]);
+				if (c >= 2) hawk_rtx_killecb(x->rtx, &ecbs2[c]); /* a killed set must not be called */
 			}
 			printf("open ok"); state_tail(c, 0); acct_tail(c);
 			cur_owner = -1; continue;
@@ -344,7 +442,9 @@ int main (int argc, char** argv)
 				int i;
 				for (i = 0; i < MAXH; i++) if (x->h[i]) { hawk_rtx_refdownval(rtx, x->h[i]); x->h[i] = NULL; }
 				hawk_rtx_close(rtx); x->rtx = NULL;
-				printf("close ok # lb=%ld xfree=%ld badfree=%ld nh=0\n", live_by_owner[c + 1], xfree_cnt, badfree_cnt);
+				if (x->wi) { cur_owner = -1; hawk_freemem(hawk, x->wi); hawk_freemem(hawk, x->wo); x->wi = x->wo = NULL; cur_owner = c; }
+				printf("close %s # lb=%ld xfree=%ld badfree=%ld nh=0\n", (ecb_closed[c] == ((c >= 2)? 1: 2))? "ok": "ECB-MISCOUNT",
+				       live_by_owner[c + 1], xfree_cnt, badfree_cnt);
 			}
 			else if (!strcmp(tok[0], "call") && nt >= 3)
 			{
@@ -357,7 +457,29 @@ int main (int argc, char** argv)
 					a[i] = mkarg(c, tok[3 + i], &temp[i]);
 					hnd[i] = (tok[3 + i][0] == 'h' && tok[3 + i][1] == ':')? atoi(tok[3 + i] + 2): -1;
 				}
-				r = hawk_rtx_callwithbcstr(rtx, tok[2], a, na);
+				switch (line_hash & 3)
+				{
+					/* the four ways to call a function by name with values: they must be indistinguishable */
+					case 0: r = hawk_rtx_callwithbcstr(rtx, tok[2], a, na); break;
+					case 1:
+					{
+						hawk_uch_t* w = hawk_rtx_dupbtoucstr(rtx, tok[2], NULL, 0);
+						r = hawk_rtx_callwithucstr(rtx, w, a, na);
+						hawk_rtx_freemem(rtx, w); break;
+					}
+					case 2:
+					{
+						hawk_fun_t* fn = hawk_rtx_findfunwithbcstr(rtx, tok[2]);
+						r = fn? hawk_rtx_callfun(rtx, fn, a, na): NULL; break;
+					}
+					default:
+					{
+						hawk_uch_t* w = hawk_rtx_dupbtoucstr(rtx, tok[2], NULL, 0);
+						hawk_fun_t* fn = hawk_rtx_findfunwithucstr(rtx, w);
+						hawk_rtx_freemem(rtx, w);
+						r = fn? hawk_rtx_callfun(rtx, fn, a, na): NULL; break;
+					}
+				}
 				valtext(rtx, r, vt, sizeof(vt));
 				printf("call ret=%s rc=%ld", vt, refs(r));
 				printf(" args=");
@@ -373,9 +495,31 @@ int main (int argc, char** argv)
 				free(a);
 				state_tail(c, 1); acct_tail(c);
 			}
+			else if (!strcmp(tok[0], "calls") && nt >= 3)
+			{
+				/* call with plain C strings: the API makes the argument values and releases them itself */
+				int na = nt - 3, i; hawk_val_t* r; const hawk_bch_t* ba[MAXA]; hawk_uch_t* wa[MAXA]; hawk_uch_t* wn;
+				if (na > MAXA) na = MAXA;
+				for (i = 0; i < na; i++) { ba[i] = (tok[3 + i][0] == 's' && tok[3 + i][1] == ':')? tok[3 + i] + 2: tok[3 + i]; wa[i] = hawk_rtx_dupbtoucstr(rtx, ba[i], NULL, 0); }
+				wn = hawk_rtx_dupbtoucstr(rtx, tok[2], NULL, 0);
+				switch (line_hash & 3)
+				{
+					case 0: r = hawk_rtx_callwithbcstrarr(rtx, tok[2], ba, na); break;
+					case 1: r = hawk_rtx_callwithucstrarr(rtx, wn, (const hawk_uch_t**)wa, na); break;
+					case 2: r = hawk_rtx_callwithoobcstrarr(rtx, wn, ba, na); break;
+					default: r = hawk_rtx_callwithooucstrarr(rtx, wn, (const hawk_uch_t**)wa, na); break;
+				}
+				hawk_rtx_freemem(rtx, wn);
+				for (i = 0; i < na; i++) hawk_rtx_freemem(rtx, wa[i]);
+				valtext(rtx, r, vt, sizeof(vt));
+				printf("calls ret=%s rc=%ld args=-", vt, refs(r));
+				if (r) hawk_rtx_refdownval(rtx, r);
+				state_tail(c, 1); acct_tail(c);
+			}
 			else if (!strcmp(tok[0], "loop") || !strcmp(tok[0], "exec"))
 			{
-				hawk_val_t* r = (tok[0][0] == 'l')? hawk_rtx_loop(rtx): hawk_rtx_execwithbcstrarr(rtx, NULL, 0);
+				hawk_val_t* r = (tok[0][0] == 'l')? hawk_rtx_loop(rtx):
+				                (line_hash & 1)? hawk_rtx_execwithucstrarr(rtx, NULL, 0): hawk_rtx_execwithbcstrarr(rtx, NULL, 0);
 				valtext(rtx, r, vt, sizeof(vt));
 				printf("%s ret=%s rc=%ld args=-", tok[0], vt, refs(r));
 				if (r) hawk_rtx_refdownval(rtx, r);
@@ -385,9 +529,21 @@ int main (int argc, char** argv)
 			{
 				int id = gblid(atoi(tok[2])), temp, n; hawk_val_t* v;
 				if (id < 0) { printf("setgbl nogbl\n"); cur_owner = -1; continue; }
-				v = mkarg(c, tok[3], &temp);
-				n = hawk_rtx_setgbl(rtx, id, v);
-				if (temp) hawk_rtx_refdownval(rtx, v);
+				if (tok[3][0] == 's' && tok[3][1] == ':' && (line_hash & 1))
+				{
+					/* by name with a C string: the value is made, assigned and released inside */
+					char nm[16]; hawk_uch_t* wn; hawk_uch_t* wv;
+					snprintf(nm, sizeof(nm), "g%d", atoi(tok[2]));
+					wn = hawk_rtx_dupbtoucstr(rtx, nm, NULL, 0); wv = hawk_rtx_dupbtoucstr(rtx, tok[3] + 2, NULL, 0);
+					n = hawk_rtx_setgbltostrbyname(rtx, wn, wv);
+					hawk_rtx_freemem(rtx, wn); hawk_rtx_freemem(rtx, wv);
+				}
+				else
+				{
+					v = mkarg(c, tok[3], &temp);
+					n = hawk_rtx_setgbl(rtx, id, v);
+					if (temp) hawk_rtx_refdownval(rtx, v);
+				}
 				v = hawk_rtx_getgbl(rtx, id); valtext(rtx, v, vt, sizeof(vt));
 				printf("setgbl r=%d g=%s/%ld", n, vt, refs(v));
 				state_tail(c, 0); acct_tail(c);
@@ -403,7 +559,7 @@ int main (int argc, char** argv)
 			else if (!strcmp(tok[0], "halt"))
 			{
 				hawk_rtx_halt(rtx);
-				printf("halt ok"); state_tail(c, 0); acct_tail(c);
+				printf("halt %s", hawk_rtx_ishalt(rtx)? "ok": "NOT-HALTED"); state_tail(c, 0); acct_tail(c);
 			}
 			else if (!strcmp(tok[0], "mkstr") && nt >= 4)
 			{
